@@ -76,13 +76,13 @@ class TVRun:
 
 
 def run_batch(ctx, programs, il_subs=None, c_subs=None, formats=tv.FORMATS, static=True, timeout=7200,
-              fam_override=None):
+              fam_override=None, mode="pool"):
     """compile + validate a list of programs.  Does no classification."""
     res = TVRun()
     res.programs = len(programs)
     import time as _t
     _t0 = _t.time()
-    comp = tv.compile_programs(programs, formats=formats)
+    comp = tv.compile_programs(programs, formats=formats, mode=mode)
     res.t_compile = _t.time() - _t0
     res.comp = comp
     cases = []
